@@ -140,6 +140,32 @@ func run(sc scenario) (body func(), check func(r *vrt.Result) []finding) {
 				w.ServerProxy.FailWriteAfter = 0
 			}
 			w.Client.Write(hw.Spec{T: "ping", Ping: "pingping"})
+		case "write_err_client_wu", "write_err_server_fwd":
+			// the failing write is not a forwarded PING but what a DATA frame from the client causes: the
+			// WINDOW_UPDATE acknowledging it toward the client (written by the client->server reader under the
+			// peer relay's write lock) or the forwarded DATA toward the server (written by the writer goroutine);
+			// the other direction has a PING to deliver to the same peer at the same time
+			if sc.Event == "write_err_client_wu" {
+				w.ClientProxy.FailWriteAfter = 0
+			} else if dialled {
+				w.ServerProxy.FailWriteAfter = 0
+			}
+			if dialled && sc.Event == "write_err_client_wu" {
+				vrt.GoNamed("server-ping", func() { w.Server.Write(hw.Spec{T: "ping", Ping: "pingping"}) })
+			}
+			if sc.State == "idle" {
+				w.Client.Write(hw.Spec{T: "headers", Stream: 1, Fields: reqF})
+			}
+			w.Client.Write(hw.Spec{T: "data", Stream: 1, Len: 9})
+		case "write_err_server_wu", "write_err_client_fwd":
+			// mirror image: a DATA frame from the server (state midstream: stream 1 is open both ways)
+			if sc.Event == "write_err_server_wu" {
+				w.ServerProxy.FailWriteAfter = 0
+				vrt.GoNamed("client-ping", func() { w.Client.Write(hw.Spec{T: "ping", Ping: "pingping"}) })
+			} else {
+				w.ClientProxy.FailWriteAfter = 0
+			}
+			w.Server.Write(hw.Spec{T: "data", Stream: 1, Len: 9})
 		case "bad_frame_client":
 			w.Client.Write(hw.Spec{T: "raw", Raw: badFrame})
 		case "bad_frame_server":
@@ -222,6 +248,10 @@ func scenarios(tier string) []scenario {
 			out = append(out, scenario{Event: ev, State: st, Bound: sb})
 		}
 	}
+	for _, st := range []string{"idle", "midstream"} {
+		out = append(out, scenario{Event: "write_err_client_wu", State: st, Bound: b}, scenario{Event: "write_err_server_fwd", State: st, Bound: b})
+	}
+	out = append(out, scenario{Event: "write_err_server_wu", State: "midstream", Bound: b}, scenario{Event: "write_err_client_fwd", State: "midstream", Bound: b})
 	out = append(out, scenario{Event: "bad_preface", State: "idle", Bound: b}, scenario{Event: "dial_error", State: "idle", Bound: b})
 	return out
 }
